@@ -843,6 +843,47 @@ def c03_producers_of_one_round_depend_on_each_other():
     return _run(sc)
 
 
+def c03_wrapped_callable_without_a_name_fails_once():
+    """C03: the wrapped callable may be a functools.partial or an instance with __call__ (no __name__): a call that
+    fails is retried with the same arguments, whatever the callable is."""
+    import functools
+    from aiuti.asyncio import BufferAsyncCalls
+
+    async def sc():
+        out = []
+
+        class Inst:
+            def __init__(self):
+                self.calls = []
+
+            async def __call__(self, args):
+                self.calls.append(set(args))
+                if len(self.calls) == 1:
+                    raise RuntimeError('first call fails')
+        inst = Inst()
+        pcalls = []
+
+        async def pfunc(tag, args):
+            pcalls.append(set(args))
+            if len(pcalls) == 1:
+                raise RuntimeError('first call fails')
+        for name, fn, calls in (('callable instance', inst, inst.calls), ('functools.partial', functools.partial(pfunc, 't'), pcalls)):
+            buf = BufferAsyncCalls(fn, timeout=1)
+            buf(1)
+            buf(2)
+            try:
+                await aio.wait_for(buf.wait(), 200)
+            except BaseException as e:  # noqa
+                out.append('C03: %s whose first call fails: wait() ended with %r; calls %r; background task: %r'
+                           % (name, e, calls, buf._waiting))
+            if not any(c >= {1, 2} for c in calls[1:]):
+                out.append('C03: %s whose first call fails: the arguments were not offered again (calls %r)' % (name, calls))
+            buf._waiting.cancel()
+            await aio.gather(buf._waiting, return_exceptions=True)
+        return out
+    return _run(sc)
+
+
 def c07_waiters_return_after_the_call_that_delivered_their_arguments():
     """C07: wait() returns once what was submitted before it has been delivered by a successful call, whatever is
     submitted afterwards (here: the function itself submits follow-up work on every call)."""
@@ -882,6 +923,34 @@ def c07_waiters_return_after_the_call_that_delivered_their_arguments():
     return _run(sc)
 
 
+def c07_zero_timeout_and_wait_without_flush():
+    """C07/C08: with timeout=0 the quiet period ends at once: wait(cancel=False) returns without anybody flushing."""
+    from aiuti.asyncio import BufferAsyncCalls
+
+    async def sc():
+        calls = []
+
+        async def func(args):
+            calls.append(set(args))
+        out = []
+        for timeout in (0, 0.0, 2.5):
+            del calls[:]
+            buf = BufferAsyncCalls(func, timeout=timeout)
+            for i in range(4):
+                buf(i)
+            ws = [aio.ensure_future(buf.wait(cancel=False)) for _ in range(2)]
+            done, pending = await aio.wait(ws, timeout=3600)
+            for t in pending:
+                t.cancel()
+            if pending or (set().union(*calls) if calls else set()) != {0, 1, 2, 3}:
+                out.append('C07: timeout=%r: %d of 2 wait(cancel=False) calls had not returned after an hour with '
+                           'nothing else going on; function received %r' % (timeout, len(pending), calls))
+            buf._waiting.cancel()
+            await aio.gather(buf._waiting, return_exceptions=True)
+        return out
+    return _run(sc)
+
+
 def c08_large_burst_in_one_go():
     """C08/C03: a burst of 5000 plain calls made without giving the loop a turn is delivered completely, in one call,
     timeout after the burst."""
@@ -911,6 +980,54 @@ def c08_large_burst_in_one_go():
 
 
 # ------------------------------------------------------------------------------------------------- batcher
+def c09_cancelled_first_caller_leaves_the_retention_window_as_it_is():
+    """C09/C11: with retention_timeout=R a later caller of the key gets the retained answer inside R and a fresh one
+    after R -- the same whether or not the FIRST caller of the key was cancelled while its request was pending."""
+    from aiuti.asyncio import AsyncBackgroundBatcher
+
+    async def run_once(cancel_first):
+        loop = aio.get_running_loop()
+        gate = aio.Event()
+        n = [0]
+
+        async def func(batch):
+            batch = list(batch)
+            n[0] += 1
+            mine = n[0]
+            await gate.wait()
+            for k, a in batch:
+                yield k, '%s#%d' % (k, mine)
+        b = AsyncBackgroundBatcher(func, batch_timeout=0.01, retention_timeout=10)
+        first = aio.ensure_future(b(1, key='k'))
+        await aio.sleep(0)
+        sharer = aio.ensure_future(b(1, key='k'))
+        await aio.sleep(0.5)            # the batch is with the batch function, held at the gate
+        if cancel_first:
+            first.cancel()
+            await _turns(4)
+        gate.set()
+        seen = [await aio.wait_for(sharer, 100)]
+        await aio.sleep(1)
+        seen.append(await aio.wait_for(b(1, key='k'), 100))      # inside the window: the retained answer
+        await aio.sleep(7)
+        seen.append(await aio.wait_for(b(1, key='k'), 100))      # 8 s after the answer: still inside
+        await aio.sleep(8)
+        seen.append(await aio.wait_for(b(1, key='k'), 100))      # 16 s after: a fresh request
+        return seen, n[0]
+
+    async def sc():
+        base = await run_once(False)
+        got = await run_once(True)
+        out = []
+        if base != (['k#1', 'k#1', 'k#1', 'k#2'], 2):
+            out.append('C11: retention_timeout=10, calls 1 s, 8 s and 16 s after the answer: %r' % (base,))
+        if got != base:
+            out.append('C09: with the first caller of the key cancelled while the request was pending the other callers '
+                       'saw %r (batch function runs: %d); without the cancellation %r (%d)' % (got[0], got[1], base[0], base[1]))
+        return out
+    return _run(sc)
+
+
 def c09_owner_cancelled_while_another_request_is_queued():
     """C09: the first caller of a key is cancelled while its batch is with the batch function and something else sits
     in the queue: the caller sharing the key still gets the result."""
@@ -1761,6 +1878,17 @@ def c20_every_kind_of_awaitable_and_failure():
         got = [e async for e in gather_excs([co(None), parked, co(boom)])]
         if len(got) != 2 or not isinstance(got[0], aio.CancelledError) or got[1] is not boom:
             out.append('C20: gather_excs([ok, cancelled child, failing]) yielded %r: not in input order' % (got,))
+        # a narrow `only` filters cancelled children out like anything else that does not match
+        for only, want in ((ValueError, ['ValueError']), (LookupError, ['KeyError']), (OSError, []),
+                           ((OSError, ValueError), ['ValueError'])):
+            victim = aio.ensure_future(aio.sleep(3600))
+            await aio.sleep(0)
+            victim.cancel()
+            got = [type(e).__name__ async for e in gather_excs([co(None), victim, co(KeyError('k')), co(ValueError('v'))],
+                                                               only=only)]
+            if got != want:
+                out.append('C20: gather_excs([ok, cancelled child, KeyError, ValueError], only=%r) yielded %r, expected %r'
+                           % (only, got, want))
         # results are whatever the awaitables return (unhashable lists and dicts included) and failures need be
         # neither distinct nor unequal: two awaitables failing with the very same object are two failures
         shared = E1('shared')
@@ -1828,11 +1956,12 @@ SCENARIOS = {
             c06_callable_raising_when_called_and_check_then_read],
     'C03': [c03_foreign_thread_submission_reaches_an_idle_loop, c03_function_failing_with_its_own_cancelled_error,
             c03_falsy_arguments_and_zero_timeout, c03_producers_of_one_round_depend_on_each_other,
-            c08_large_burst_in_one_go],
+            c08_large_burst_in_one_go, c03_wrapped_callable_without_a_name_fails_once],
     'C04': [c04_burst_with_a_cancelled_caller, c04_owner_cancelled_then_same_key_again_in_the_open_batch,
             c04_batch_size_lowered_while_assembling, c04_batch_callable_raising_when_called_and_zero_batch_timeout],
     'C09': [c04_owner_cancelled_then_same_key_again_in_the_open_batch, c11_sharer_cancelled_while_pending,
-            c09_owner_cancelled_while_every_slot_is_busy, c09_owner_cancelled_while_another_request_is_queued],
+            c09_owner_cancelled_while_every_slot_is_busy, c09_owner_cancelled_while_another_request_is_queued,
+            c09_cancelled_first_caller_leaves_the_retention_window_as_it_is],
     'C10': [c15_options_form_equals_direct_form_batcher, c04_batch_size_lowered_while_assembling,
             c04_batch_callable_raising_when_called_and_zero_batch_timeout],
     'C11': [c11_sharer_cancelled_while_pending, c04_owner_cancelled_then_same_key_again_in_the_open_batch,
@@ -1844,7 +1973,7 @@ SCENARIOS = {
     'C20': [c20_every_kind_of_awaitable_and_failure],
     'C07': [c07_shutdown_while_a_flush_is_requested, c03_function_failing_with_its_own_cancelled_error,
             c07_cancelled_while_the_function_runs_and_reports_it_differently,
-            c07_waiters_return_after_the_call_that_delivered_their_arguments],
+            c07_waiters_return_after_the_call_that_delivered_their_arguments, c07_zero_timeout_and_wait_without_flush],
     'C08': [c08_wait_from_anywhere_without_flush, c03_function_failing_with_its_own_cancelled_error,
             c08_foreign_thread_submission_restarts_the_quiet_period, c03_falsy_arguments_and_zero_timeout,
             c08_large_burst_in_one_go],
